@@ -3,7 +3,8 @@
    DEFINITIONS ONLY.  Gen/TP_isInCircleRobust.v (regenerated from the C++ on every run) is proved equal to robust_b64 in
    C16/B64.v; the extracted robust_b64 is run bit-for-bit beside the real function (harness/c16.cpp, mode P). *)
 From Coq Require Import ZArith List Bool Floats.SpecFloat.
-From GeosV Require Import Lib.KernelDefs Lib.GenPreludeF C16.Defs.
+From GeosV.Lib Require Import KernelDefs GenPreludeF.
+From GeosV.C16 Require Import Defs.
 Import ListNotations.
 Local Open Scope Z_scope.
 
